@@ -220,6 +220,63 @@ ERR = [
 ]
 
 
+# callbacks that fail under every native that runs callbacks (with a frame of its own: each/reduce/all/any/sort; without:
+# list/first/last/len/next/into/for-loops driving lazy map/filter/zip/skip/take iterators), the error raised at every element
+# position and by every kind of raise site, the catching try placed in the frame that called the native, one frame further
+# out, at script level, or nowhere; afterwards unrelated calls and 30 repetitions. Oracle: no crash, and the three placements
+# of the try print exactly the same thing (the error either is or is not catchable, wherever the try sits).
+CB_DRIVERS = [
+    ("each", "L.iter().each(cb);"),
+    ("each_lambda", "L.iter().each(|x| { print(cb(x)); });"),
+    ("map_list", "print(L.iter().map(cb).list());"),
+    ("map_first", "print(L.iter().map(cb).first());"),
+    ("map_last", "print(L.iter().map(cb).last());"),
+    ("map_len", "print(L.iter().map(cb).len());"),
+    ("map_next", "let it = L.iter().map(cb); print(it.next()); print(it.current()); print(it.next()); print(it.current()); print(it.next());"),
+    ("map_str", "print(L.iter().map(cb).str().len() > 0);"),
+    ("map_into", "print(L.iter().map(cb).into(List.collect));"),
+    ("map_map_list", "print(L.iter().map(cb).map(|y| y + 1).list());"),
+    ("map_skip_list", "print(L.iter().map(cb).skip(1).list());"),
+    ("map_take_list", "print(L.iter().map(cb).take(2).list());"),
+    ("map_zip_list", "print(L.iter().zip(L.iter().map(cb)).list());"),
+    ("map_chain_list", "print(L.iter().chain(L.iter().map(cb)).list());"),
+    ("filter_list", "print(L.iter().filter(|x| cb(x) > 2).list());"),
+    ("filter_first", "print(L.iter().filter(|x| cb(x) > 2).first());"),
+    ("for_map", "for v in L.iter().map(cb) { print(v); }"),
+    ("for_filter", "for v in L.iter().filter(|x| cb(x) > 2) { print(v); }"),
+    ("for_map_nested", "for v in L.iter().map(cb) { for w in [v].iter().map(|y| y + 1) { print(w); } }"),
+    ("reduce", "print(L.iter().reduce(0, |a, x| a + cb(x)));"),
+    ("all", "print(L.iter().all(|x| cb(x) > 0));"),
+    ("any", "print(L.iter().any(|x| cb(x) > 100));"),
+    ("sort", "print(L.sort(|a, b| cb(a) - cb(b)));"),
+    ("each_in_each", "L.iter().each(|x| { print([x].iter().map(cb).list()); });"),
+    ("map_in_for", "for x in L { print([x].iter().map(cb).first()); }"),
+    ("list_slice_map", "print(L.slice(0).iter().map(cb).list());"),
+]
+CB_SITES = [("raise", "raise Error('boom');"), ("vm", "let z = x + nil;"), ("native", "let z = Number.parse('zz');"),
+            ("nested", "boom();"), ("inner_caught", "try { raise Error('in'); } catch e2 { print('in', x); }")]
+CB_AT = [1, 2, 3, 0]
+CB_PLACE = ["same", "wrapper", "script", "none"]
+
+
+def cberr_source(driver, site, at, place):
+    d = dict(CB_DRIVERS)[driver]
+    st = dict(CB_SITES)[site]
+    head = ("fn boom() { raise Error('deep'); } fn k() { return 7; } fn h() { let a = 1; let b = k(); return a + b; } "
+            "fn cb(x) { if x == %d { %s } return x * 2; } " % (at, st))
+    handler = "print('caught', e.cls().name());"
+    if place == "same":
+        body = head + "fn run(L) { let pad = 5; try { %s } catch e { %s } return pad; } " % (d, handler)
+    elif place == "wrapper":
+        body = head + "fn drive(L) { let q = 1; %s return q; } fn run(L) { let pad = 5; try { drive(L); } catch e { %s } return pad; } " % (d, handler)
+    elif place == "none":
+        body = head + "fn run(L) { let pad = 5; %s return pad; } " % d
+    else:
+        return head + ("let L = [1, 2, 3]; let pad = 5; try { %s } catch e { %s } print(pad); print(h()); "
+                       "let i = 0; while i < 30 { try { %s } catch e { %s } i += 1; } print(h()); print('done');" % (d, handler, d, handler))
+    return body + "print(run([1, 2, 3])); print(h()); let i = 0; while i < 30 { run([1, 2, 3]); i += 1; } print(h()); print('done');"
+
+
 class C16(Check):
     id = "C16"
     level = "exploration"
@@ -278,6 +335,10 @@ class C16(Check):
             yield ("prot", name, s)
         for i, s in enumerate(ERR):
             yield ("err", i, s)
+        for dn, _ in CB_DRIVERS:
+            for sn, _ in CB_SITES:
+                for at in CB_AT:
+                    yield ("cberr", dn, sn, at)
         # boundary-count programs (nesting depth, 254..300 locals/fields/methods/arguments/captures, wide constants): accepted ones must run without a crash
         from checks import c15
         for name, src in c15.boundary_family(th):
@@ -310,6 +371,8 @@ class C16(Check):
             return PRE + "print('M'); let v = %s; v[%s] = %s; print('done');" % (spec[1], spec[2], spec[3])
         if k == "prop":
             return PRE + "print('M'); let v = %s; let k = %s; v.len = k; print('done');" % (spec[1], spec[2])
+        if k == "cberr":
+            return PRE + "print('M'); " + cberr_source(spec[1], spec[2], spec[3], "same")
         if k == "bound":
             return PRE + "print('M'); " + spec[2]
         if k in ("rec", "selfc", "prot", "err"):
@@ -320,6 +383,8 @@ class C16(Check):
         return "%s | %s" % (spec[0], self.source(spec).split("\n", 1)[1][:400])
 
     def build(self, spec):
+        if spec[0] == "cberr":
+            return [{"src": PRE + "print('M'); " + cberr_source(spec[1], spec[2], spec[3], pl), "step_limit": 5000000} for pl in CB_PLACE], None
         case = {"src": self.source(spec)}
         if spec[0] in ("rec", "selfc", "bound"):
             case["step_limit"] = 30000000
@@ -328,7 +393,27 @@ class C16(Check):
         return [case], None
 
     def judge(self, spec, ctx, rs):
-        r = rs[0]
+        if spec[0] == "cberr":
+            return self.judge_cberr(spec, rs)
+        return self.judge_one(spec, rs[0])
+
+    def judge_cberr(self, spec, rs):
+        for pl, r in zip(CB_PLACE, rs):
+            v = self.judge_one(spec, r)
+            if not v.ok:
+                v.reason = "[try placed: %s] %s" % (pl, v.reason)
+                return v
+        same, wrap, script, none = rs
+        obs = lambda r: (r.get("class"), r.get("code"), r.get("out"))
+        if obs(same) != obs(wrap) or obs(same) != obs(script):
+            return Verdict(False, True, "cberr:placement", "the same failing callback behaves differently depending on which frame holds the try: same-frame %r / wrapper %r / script %r (stderr %r)" % (
+                obs(same), obs(wrap), obs(script), (same.get("err", "") + wrap.get("err", "") + script.get("err", ""))[-300:]))
+        propagates = "caught" in same.get("out", "")
+        if propagates != (none.get("class") == "runtime_error"):
+            return Verdict(False, True, "cberr:uncaught", "with a try the error is %scaught, without one the program ends with class=%s code=%s" % ("" if propagates else "not ", none.get("class"), none.get("code")))
+        return Verdict(True, True, "cberr:%s" % ("caught" if propagates else "no-error"))
+
+    def judge_one(self, spec, r):
         c = r.get("class")
         out = r.get("out", "")
         err = r.get("err", "")
